@@ -439,10 +439,19 @@ def _get_var(sut: SUT, op: dict):
 
 
 def issue(sut: SUT, op: dict) -> Outcome:
+    before = sut.seq
     with warnings.catch_warnings(record=True) as w:
         warnings.simplefilter("always")
         try:
             val = _do(sut, op)
+            if sut.seq is not before:
+                # a restart replaced the live object: keep the old one around, it
+                # must not be affected by what happens to the copy
+                olds = getattr(sut, "old_seqs", None)
+                if olds is None:
+                    olds = sut.old_seqs = []
+                olds.append(before)
+                del olds[:-3]
         except Exception as e:  # noqa: BLE001 - the SUT may raise anything
             return Outcome(
                 "raised",
